@@ -30,12 +30,18 @@ SigmaCore == {"UNION", "DECART", "IN", "EQUAL", "AND", "NOT", "FORALL", "BOOLEAN
 Sigma == IF SeqAlphabet = "full" THEN SigmaFull ELSE SigmaCore
 EditTokens == {"(", ")", "{", "}", "|", ",", "UNION", "IN", "AND", "NOT", "$X1", "$a", "$A1", "#1", "EMPTY", "DEFINE", "ASSIGN", "~80", "~00"}
 
+\* schema documents for the JSON entry points: one field of one record (0 = the document itself) damaged in one way
+JFields == {"items", "type", "title", "alias", "comment", "entityUID", "cstType", "convention", "term", "definition", "formal", "raw", "resolved", "forms", "text"}
+JMuts == {"drop", "null", "int", "negative", "huge", "string", "empty-string", "array", "object", "bool", "dup-uid", "bad-enum", "junk-utf8", "nested-deep"}
+
 VARIABLES mode, stage, toks
 v4 == <<mode, stage, toks, fam, c>>
 EditPool == IF EditTrees = "all" THEN OpTrees \cup LogicTrees \cup CtorTrees
             ELSE IF EditTrees = "ctor" THEN CtorTrees \cup {Bin(o, X(1), X(2)) : o \in BinOps} \cup LMix ELSE {}
 
 Init4 == \/ mode = "seq" /\ stage = 0 /\ toks = <<>> /\ fam = "none" /\ c = X(1)
+         \/ /\ mode = "json" /\ stage = 0 /\ fam = "none" /\ c = X(1)
+            /\ \E item \in 0..8, f \in JFields, m \in JMuts : toks = <<ToString(item), f, m>>
          \/ mode = "edit" /\ stage = 1 /\ fam = "none" /\ c \in EditPool /\ toks = Render(c, FALSE).t
 Next4 ==
   \/ /\ mode = "seq" /\ Len(toks) < MaxSeq /\ \E s \in Sigma : toks' = Append(toks, s)
@@ -47,7 +53,7 @@ Next4 ==
         \/ \E i \in 1..Len(toks) : toks' = SubSeq(toks, 1, i) \o SubSeq(toks, i, Len(toks))                          \* duplicate
         \/ \E i \in 1..(Len(toks) - 1) : toks' = [toks EXCEPT ![i] = toks[i + 1], ![i + 1] = toks[i]]                \* transpose
 Spec4 == Init4 /\ [][Next4]_v4
-Emit4 == PrintT(<<"CASE", ToJson([kind |-> "toks", toks |-> toks])>>)
+Emit4 == PrintT(<<"CASE", ToJson([kind |-> IF mode = "json" THEN "json" ELSE "toks", toks |-> toks])>>)
 
 \* The postcondition of C04 for one call (the recorded event carries what the call returned / logged):
 \*   ev.returned : the call came back (no fault), ev.ok : it reported success,
